@@ -1172,6 +1172,10 @@ def run_corpus(ctx, impl, known_keys):
                 what = "text output failed with %r although every character is representable" % (r_ and r_[:80],)
             elif bytes.fromhex(r_[3:]) != exp:
                 what = "text output is not the concatenated text"
+        elif fn.startswith("h_") and t[0] == "H":
+            key = "K-C08-html-astral-attr"
+            txt = bytes.fromhex(r_[3:]).decode(PY_CODEC.get(t[2], "utf-8"), "replace") if r_ and r_.startswith("ok:") else None
+            what = "html serialization failed" if txt is None else h_verdict(S4.parse_script(t[8:]), txt, int(t[3]), int(t[4]), int(t[5]))
         elif fn.startswith("k18"):
             key = "K18"
             exp = text_expected(t[2], S4.parse_script(t[3:]))[0]
